@@ -25,7 +25,7 @@ def cell_cases(states, r, per=2):
 def run(ck):
     bindir, model = K.setup(ck, props_targets=["Inst/InstGolden.vo"])
     states = json.load(open(os.path.join(vcommon.BUILD, "tokir_html.json")))["states"]
-    n = 2500 if ck.quick else 100000
+    n = 12000 if ck.quick else 150000
     corr = [T.gen_case(ck.rng, "h") for _ in range(n)]
     K.correspondence(ck, bindir, model, corr, "html tokenizer")
     # every (state, character class) cell, entered directly through TokenizerOpts::initial_state
